@@ -194,6 +194,11 @@ let handle = function
      | Some r -> L [A "some"; anode_sexp r]
      | None -> L [A "none"])
   | L [A "annot_build"; L given; L kids] -> anode_sexp (build (List.map ann_of given) (List.map anode_of kids))
+  | L [A "enc_int"; v] -> L (List.map a_z (enc_int (z_a v)))
+  | L [A "dec_int"; L bs] -> a_z (dec_int (List.map z_a bs))
+  | L [A "hc_body"; L args; L anns; len] ->
+    let bl = function L bs -> List.map z_a bs | _ -> failwith "bytes" in
+    L (List.map a_z (body (List.map bl args) (List.map bl anns) (match len with L [] -> None | l -> Some (bl l))))
   | L [A "fe_split_fe"; st] -> L (List.map fe_sexp (split_fe (fe_of st)))
   | L [A "meta"; e] ->
     let x = expr_of e in
